@@ -1,12 +1,12 @@
 package checks
 
 import (
-	"git.defalsify.org/vise.git/vm"
 	"bytes"
 	"context"
 	"fmt"
 	"git.defalsify.org/vise.git/engine"
 	"git.defalsify.org/vise.git/persist"
+	"git.defalsify.org/vise.git/vm"
 	"strings"
 
 	"verif/harness/app"
